@@ -216,7 +216,7 @@ PROPS = {
         "design_ref": "DESIGN.md §3.12, §4 C06",
     },
     "C01": {
-        "rules": ["GUARD", "CONDSPEC", "PREDSPEC", "CHECKFORM", "FLOORENC", "EFFORDER", "LOCSETS", "ZEROSHORT", "CTXSHAPE", "ENVSHADOW", "EQVSHAPE", "ALIASCLOSED", "WINCOMPOSE", "STRIDEKNOWN", "ZIPLEN", "NAMECONF", "FIELDS", "VERDICT", "VERDICTUSE", "LAYER", "CHILDREN", "READKINDS", "EXH", "TRAV@C01", "TRAVBASE", "BYPASS"],
+        "rules": ["GUARD", "CONDSPEC", "PREDSPEC", "CHECKFORM", "FLOORENC", "EFFORDER", "LOCSETS", "ZEROSHORT", "COPYIDENT", "CTXSHAPE", "ENVSHADOW", "EQVSHAPE", "ALIASCLOSED", "WINCOMPOSE", "STRIDEKNOWN", "ZIPLEN", "NAMECONF", "FIELDS", "VERDICT", "VERDICTUSE", "LAYER", "CHILDREN", "READKINDS", "EXH", "TRAV@C01", "TRAVBASE", "BYPASS"],
         "thorough": [],
         "technique": "static analysis: per-primitive obligation table decided by a must-analysis (dominance of side conditions over tree edits, with raising guards, flag assumptions and check-argument provenance), plus comparison/identity/verdict/layering/traversal rules",
         "level_text": "Structural clauses, decided for all programs and schedules from the source: every scheduling primitive reaches its tree edits only through the side conditions "
@@ -230,7 +230,7 @@ PROPS = {
         "design_ref": "DESIGN.md §3.3-3.8, §4 C01, Appendix A",
     },
     "C04": {
-        "rules": ["GUARD", "CONDSPEC", "CHECKFORM", "BINDERS", "ALIASCLOSED", "WINCOMPOSE", "ANNOTSYNC", "READKINDS", "ALLOCSIZE", "STAGEGUARD", "FREEVARS", "ZEROSHORT", "ANCESTORFACT", "RENAMEUSES", "FWDTHREAD", "TRAV@C04", "TRAVBASE", "BYPASS"],
+        "rules": ["GUARD", "CONDSPEC", "CHECKFORM", "BINDERS", "ALIASCLOSED", "WINCOMPOSE", "ANNOTSYNC", "READKINDS", "ALLOCSIZE", "STAGEGUARD", "FREEVARS", "COPYIDENT", "ZEROSHORT", "ANCESTORFACT", "RENAMEUSES", "FWDTHREAD", "TRAV@C04", "TRAVBASE", "BYPASS"],
         "thorough": [],
         "technique": "static analysis: post-edit Check_Bounds/Check_Aliasing obligations and scope guards from the primitive table (must-analysis), binder-coverage of scope-environment builders, renaming of duplicated code",
         "level_text": "Structural clauses: every shape-changing rewrite (expand/resize/fold/stage) passes its result to Check_Bounds after the last edit; primitives that introduce a call or rewrite "
